@@ -4,6 +4,11 @@ import (
 	"github.com/gopher-fleece/runtime"
 
 	"verifgen/greq"
+	ndchi "verifgen/nd_chi"
+	ndecho "verifgen/nd_echo"
+	ndfiber "verifgen/nd_fiber"
+	ndgin "verifgen/nd_gin"
+	ndmux "verifgen/nd_mux"
 	rchi "verifgen/routes_chi"
 	recho "verifgen/routes_echo"
 	rfiber "verifgen/routes_fiber"
@@ -27,7 +32,42 @@ func vhToUrl(engine int, s string) string {
 	return rfiber.VhToUrl(s)
 }
 
+// vhProject selects the generated project the route table and handlers come from: 0 the main fixture (api), 1 the
+// project without default security (apind)
+var vhProject = 0
+
+func vhRoutesND(engine int) []greq.Route {
+	switch engine {
+	case 0:
+		return ndgin.VhRoutes()
+	case 1:
+		return ndecho.VhRoutes()
+	case 2:
+		return ndmux.VhRoutes()
+	case 3:
+		return ndchi.VhRoutes()
+	}
+	return ndfiber.VhRoutes()
+}
+
+func vhRunND(engine, i int, r greq.Req) greq.Resp {
+	switch engine {
+	case 0:
+		return ndgin.VhRun(i, r)
+	case 1:
+		return ndecho.VhRun(i, r)
+	case 2:
+		return ndmux.VhRun(i, r)
+	case 3:
+		return ndchi.VhRun(i, r)
+	}
+	return ndfiber.VhRun(i, r)
+}
+
 func vhRoutes(engine int) []greq.Route {
+	if vhProject == 1 {
+		return vhRoutesND(engine)
+	}
 	switch engine {
 	case 0:
 		return rgin.VhRoutes()
@@ -42,6 +82,9 @@ func vhRoutes(engine int) []greq.Route {
 }
 
 func vhRun(engine, i int, r greq.Req) greq.Resp {
+	if vhProject == 1 {
+		return vhRunND(engine, i, r)
+	}
 	switch engine {
 	case 0:
 		return rgin.VhRun(i, r)
